@@ -40,9 +40,18 @@ func ptStr(x, y *big.Int) string { return nhx(x) + " " + nhx(y) }
 
 // execOp runs the real code for one op line and returns the canonical result string.
 func execOp(line string) (res string) {
+	// byte-slice arguments belong to the caller: once the call has returned (and its answer has been rendered) the
+	// harness overwrites them, as a caller recycling its buffers would.  A library that kept the slice instead of a copy
+	// shows in a later answer.
+	var argBufs [][]byte
 	defer func() {
 		if r := recover(); r != nil {
 			res = "panic"
+		}
+		for _, b := range argBufs {
+			for i := range b {
+				b[i] = 0x5a
+			}
 		}
 	}()
 	toks := strings.Fields(line)
@@ -56,6 +65,7 @@ func execOp(line string) (res string) {
 		if !ok {
 			panic("bad hex")
 		}
+		argBufs = append(argBufs, b)
 		return b
 	}
 	// the message hash is handed to the library in ONE buffer that the harness re-uses for every call, as callers that
